@@ -252,7 +252,8 @@ class Bed:
 
     def on_release(self, w: int, rid: int, kind: str) -> None:
         ls = self.leases.get(rid, [])
-        mine_live = any(l["w"] == w and l["live"] for l in ls)
+        # a lease revived by extend_lock after it had lapsed does not count as a valid hold of the caller
+        mine_live = any(l["w"] == w and l["live"] and not l["revived"] for l in ls)
         others_live = any(l["w"] != w and l["live"] for l in ls)
         if others_live and not mine_live:
             self.breaker[rid] = f"stale-{kind}"
@@ -586,9 +587,6 @@ def gen_next(rng, bed: Bed, i: int, n: int) -> str:
     return op
 
 
-def drain_ops(bed: Bed) -> list[str]:
-    ops = [f"claim:{w}" for w in list(bed.parked)]
-    return ops
 
 
 class Pool:
